@@ -289,6 +289,17 @@ fn tag_laws(ctx: &mut Ctx, base: &Xstate) {
     {
         let w = *ctx.rng.pick(&["^hex", "^dec", "^oct", "^bin"]);
         let f = run_quiet(base, w, &[v0.clone()]);
+        // the model has these words under the names of the natives they compile to
+        let basen = match w { "^hex" => 16, "^dec" => 10, "^oct" => 8, _ => 2 };
+        ctx.case(format!("C13 <fmt-base> {}", canon::stack_str(&[v0.clone(), Cell::Int(basen)])).trim_end().to_string(), f.0.clone());
+        {
+            let (wf, native) = *ctx.rng.pick(&[("fmt/prefix", "<fmt-prefix>"), ("fmt/tags", "<fmt-tags>"), ("fmt/upcase", "<fmt-upcase>")]);
+            let flag = if ctx.rng.chance(85) { Cell::Flag(ctx.rng.bool()) } else { gen_value(&mut ctx.rng, 0) };
+            let args = [v0.clone(), flag];
+            let g = run_quiet(base, wf, &args);
+            ctx.case(format!("C13 {} {}", native, canon::stack_str(&args)).trim_end().to_string(), g.0.clone());
+            ctx.tag(&format!("word:{}", wf));
+        }
         if let (Some(vf), Some(t0)) = (top(&f), v0.tags()) {
             for (k, val) in t0.iter() {
                 if !same(k, &Cell::from("#fmt")) {
@@ -440,6 +451,32 @@ fn c_api_blind(ctx: &mut Ctx) {
     ctx.tag("c-api-view");
 }
 
+/// what counts as a condition does not depend on tags: `nil`, `true`, `false` (and a non-flag, which is a type error)
+/// in `if`, `while`, `until`, `assert` — every value, every tag variant, always part of the run
+fn conditions(ctx: &mut Ctx, base: &Xstate) {
+    const SNIPPETS: &[&str] = &["s if 1 else 0 then", "s assert 7", "0 begin 1 + dup 3 > s or until", "0 begin 1 + dup 3 < s and while repeat", "s not", "s nil?", "s if then 9"];
+    for v in [Cell::Nil, Cell::Flag(true), Cell::Flag(false), Cell::Int(1), Cell::from("x")] {
+        for snippet in SNIPPETS {
+            let run1 = |s: &Cell| -> (String, Option<Vec<Cell>>) {
+                let mut xs = base.clone();
+                let r = crate::guarded(|| { xs.push_data(s.clone())?; xs.eval("var s")?; xs.set_insn_limit(Some(500))?; xs.eval(snippet) });
+                match r {
+                    None => ("panic".into(), None),
+                    Some(Ok(())) => { let st = canon::stack(&xs); (canon::ok_stack(&st), Some(st)) }
+                    Some(Err(e)) => (format!("err {}", canon::err(&e).split(':').next().unwrap_or("")), None),
+                }
+            };
+            let plain = run1(&v);
+            for d in 0..3u32 {
+                let t = if d == 2 { v.clone().with_tags(Xmap::new()) } else { tag_deep(&mut ctx.rng, &v, d) };
+                let got = run1(&t);
+                ctx.check(agree(&plain, &got), || format!("C13 `{}` with s={} | tagged: s={}", snippet, canon::cell(&v), canon::cell(&t)), || plain.0.clone(), || got.0.clone());
+            }
+        }
+    }
+    ctx.tag("conditions");
+}
+
 pub fn run(ctx: &mut Ctx) {
     c_api_blind(ctx);
     let mut base = Xstate::boot().unwrap();
@@ -448,6 +485,7 @@ pub fn run(ctx: &mut Ctx) {
     let bytes: Vec<u8> = (0..64).map(|_| ctx.rng.next_u64() as u8).collect();
     base.set_binary_input(Xbitstr::from(bytes)).unwrap();
     let per_word = if ctx.thorough { 60 } else { 8 };
+    conditions(ctx, &base);
     dictionary(ctx, &base, per_word);
     for i in 0..ctx.n {
         if i % 5 == 4 { tag_laws(ctx, &base) } else { modelled(ctx, &base) }
